@@ -39,14 +39,14 @@ cls(
         "wsgi_max_body_size": "int",
         "_bind": "strs", "_insecure_bind": "strs", "_quic_bind": "strs", "_root_path": "str",
         "ssl_handshake_timeout": "real", "startup_timeout": "real", "shutdown_timeout": "real", "graceful_timeout": "real",
-        "max_requests": "opt int", "max_requests_jitter": "int", "backlog": "int", "workers": "int",
+        "max_requests": "opt int", "max_requests_jitter": "int", "backlog": "int", "workers": "int", "certfile": "opt str", "keyfile": "opt str",
     },
     immutable=["log", "keep_alive_max_requests", "keep_alive_timeout", "h2_max_concurrent_streams", "h2_max_header_list_size",
                "h2_max_inbound_frame_size", "h11_max_incomplete_size", "h11_pass_raw_headers", "root_path", "server_names",
                "websocket_max_message_size", "websocket_ping_interval", "max_app_queue_size", "read_timeout",
                "include_date_header", "include_server_header", "alt_svc_headers", "_quic_addresses", "wsgi_max_body_size",
                "_bind", "_insecure_bind", "_quic_bind", "_root_path", "ssl_handshake_timeout", "startup_timeout", "shutdown_timeout", "graceful_timeout",
-               "max_requests", "max_requests_jitter", "backlog", "workers"],
+               "max_requests", "max_requests_jitter", "backlog", "workers", "certfile", "keyfile"],
 )
 
 # ---------------------------------------------------------------------------------- WorkerContext
